@@ -1,7 +1,7 @@
-\* focus (C06): in-place shape edits that can be rejected half-way - merge_shapes, item assignment
+\* focus (C06): in-place edits of a value's shape and of a node's attributes that can be rejected half-way
 CONSTANTS
   SeedIds = {1}
-  Focus = {"MergeShapes","SetShape","SetDim"}
+  Focus = {"MergeShapes","SetShape","SetDim","AttrUpdate2","AttrDel"}
   MaxGraphs = 4
   MaxDepth = 3
   EditVals = {1, 5, 6}
